@@ -437,46 +437,27 @@ func (x *Ctx) borrowSetsDepth(recv ssa.Value) string {
 		return "borrow function has no receiver"
 	}
 	parent := bf.Params[0]
+	stores := x.fieldStores(bf)
 	for _, b := range bf.Blocks {
 		ret, ok := b.Instrs[len(b.Instrs)-1].(*ssa.Return)
 		if !ok {
 			continue
 		}
-		// find a store X.depth = parent.depth + 1 in the returning block (or a dominator) for X == returned value
+		// a store X.depth = parent.depth + 1 (written here or in a private helper) on the way to this return, X the
+		// returned value
 		found := false
-		for d := b; d != nil && !found; d = d.Idom() {
-			for _, ins := range d.Instrs {
-				st, ok := ins.(*ssa.Store)
-				if !ok {
-					continue
-				}
-				fa, ok := st.Addr.(*ssa.FieldAddr)
-				if !ok || fa.X != ret.Results[0] {
-					continue
-				}
-				s := structOfType(fa.X.Type())
-				if s == nil || s.Field(fa.Field).Name() != "depth" {
-					continue
-				}
-				add, ok := st.Val.(*ssa.BinOp)
-				if !ok || add.Op != token.ADD {
-					continue
-				}
-				one, ok := add.Y.(*ssa.Const)
-				if !ok || one.Value == nil {
-					continue
-				}
-				if v, _ := constant.Int64Val(one.Value); v != 1 {
-					continue
-				}
-				ld, ok := add.X.(*ssa.UnOp)
-				if !ok {
-					continue
-				}
-				pfa, ok := ld.X.(*ssa.FieldAddr)
-				if !ok || pfa.X != ssa.Value(parent) || pfa.Field != fa.Field {
-					continue
-				}
+		for _, fs := range stores {
+			if fs.Field != "depth" || !fs.Always || !fs.Base.isLeaf(ret.Results[0]) || !(fs.At == b || fs.At.Dominates(b)) {
+				continue
+			}
+			v := fs.Val
+			if v == nil || v.Op != token.ADD {
+				continue
+			}
+			if one, ok := v.Y.constInt(); !ok || one != 1 {
+				continue
+			}
+			if v.X.isFieldLoad(parent, "depth") {
 				found = true
 			}
 		}
